@@ -10,6 +10,7 @@ variable {L : Nat}
 /-- what `termStep` guarantees about the state it hands back -/
 def TermSpec (L : Nat) (s1 : PS) : PRes TermStep → Prop
   | .ok (.stop s2) => Le L s1 s2
+  | .ok (.skip s2) => Adv L s1 s2
   | .ok (.push s3 true) => Adv L s1 s3
   | .ok (.push s3 false) => Le L s1 s3
   | .err e => ErrOK L e
@@ -35,17 +36,12 @@ theorem termStep_spec (term : List PItem) (s1 : PS) (hi : Inv L s1) (hterm : ∀
     TermSpec L s1 (termStep term s1) := by
   unfold termStep
   by_cases ht : term.isEmpty = true
-  · have hnil : term = [] := by simpa using ht
-    subst hnil
-    simp only [List.isEmpty_nil, if_true, Bool.true_and, List.getLast?_nil, ite_self]
+  · simp only [ht, if_true]
     rcases expect_cases s1 .comma hi (by decide) with ⟨he, h1⟩ | he
-    · simp only [he, Bool.not_true, Bool.false_eq_true, if_false]
-      rcases expect_cases s1.advance .comma h1.inv (by decide) with ⟨he2, h2⟩ | he2
-      · simp only [he2]; exact h1.trans h2
-      · simp only [he2]; exact h1.toLe
-    · simp only [he, Bool.not_false, if_true]
+    · simp only [he, if_true]; exact h1
+    · simp only [he, Bool.false_eq_true, if_false]
       exact Le.refl s1 hi
-  · simp only [ht, Bool.false_eq_true, if_false, Bool.false_and]
+  · simp only [ht, Bool.false_eq_true, if_false]
     split
     · rename_i it hm
       by_cases hd : isDiacritic s1.cur.kind = true
@@ -55,6 +51,17 @@ theorem termStep_spec (term : List PItem) (s1 : PS) (hi : Inv L s1) (hterm : ∀
     · rcases expect_cases s1 .comma hi (by decide) with ⟨he2, h2⟩ | he2
       · simp only [he2]; exact h2
       · simp only [he2]; exact Le.refl s1 hi
+
+/-- only an empty term is skipped -/
+theorem termStep_skip_empty (term : List PItem) (s1 s2 : PS) (h : termStep term s1 = .ok (.skip s2)) : term.isEmpty = true := by
+  unfold termStep at h
+  by_cases ht : term.isEmpty = true
+  · exact ht
+  · simp only [ht, Bool.false_eq_true, if_false] at h
+    split at h
+    · cases h
+    · rcases hx : s1.expect .comma with ⟨c, s3⟩
+      rw [hx] at h; cases h
 
 /-- `get_input_els` either returns what it was given without moving, or a longer list -/
 theorem inputElsLoop_grow : ∀ (fuel : Nat) (s : PS) (acc term : List PItem) (s1 : PS),
@@ -125,10 +132,18 @@ theorem inputLoop_spec : ∀ (fuel : Nat) (s : PS) (inputs : List (List PItem)),
               | nil => exact this hv
               | cons a b => rw [hv] at hnone; simp at hnone
             · rw [ht] at hl; simp at hl
-        · have h2 := termStep_spec term s1 h1.inv
+        · rename_i hnb
+          have h2 := termStep_spec term s1 h1.inv
             (inputElsLoop_last (s.toks.length + 2) s [] term s1 hi (fuel_ok s) (fun it hit => by simp at hit) hx)
           split
           · rename_i s2 hy; rw [hy] at h2; exact h1.trans h2
+          · rename_i s2 hy
+            have hte := termStep_skip_empty term s1 s2 hy
+            rw [hy] at h2
+            have ha : Adv L s s2 := h1.trans_adv h2
+            refine loop_step ha (ih _ _ ha.inv (fun hnil => ?_) (measure_lt ha hf))
+            exfalso; apply hnb
+            simp [hte, hnil]
           · rename_i s3 hy; rw [hy] at h2
             have ha : Adv L s s3 := h1.trans_adv h2
             exact loop_step ha (ih _ _ ha.inv (fun h => by simp at h) (measure_lt ha hf))
@@ -205,6 +220,9 @@ theorem outputLoop_spec : ∀ (fuel : Nat) (s : PS) (outputs : List (List PItem)
             (outputElsLoop_last (s.toks.length + 2) s [] term s1 hi (fuel_ok s) (fun it hit => by simp at hit) hx)
           split
           · rename_i s2 hy; rw [hy] at h2; exact h1.trans h2
+          · rename_i s2 hy; rw [hy] at h2
+            have ha : Adv L s s2 := h1.trans_adv h2
+            exact loop_step ha (ih _ _ ha.inv (measure_lt ha hf))
           · rename_i s3 hy; rw [hy] at h2
             have ha : Adv L s s3 := h1.trans_adv h2
             exact loop_step ha (ih _ _ ha.inv (measure_lt ha hf))
